@@ -153,6 +153,7 @@ var seedExpectations = []seedExpect{
 	{"spirv-imagequery-capability", "C02", "cap.opcode", "emitImageLoadRestrict"},
 	{"spirv-image-key-raw-format", "C02", "cachekey.mapped", "imageTypeKey"},
 	{"spirv-pushconstant-wrapper", "C02", "space.sameclass", "globalNeedsWrapper"},
+	{"push-constant-spelling", "C03", "space.sameclass", "writeGlobalVariable"},
 	{"glsl-vector-select", "C05", "select.condshape", "writeSelect"},
 	{"glsl-image-atomic-coord", "C05", "image.coordbuilder", "writeImageAtomic"},
 	{"glsl-shallow-feature-scan", "C05", "walker.shallow", "scanStatementsForFeatures"},
